@@ -1,3 +1,4 @@
+import copy
 import torch
 
 from ..domain import Domain, BoundaryDomain
@@ -156,8 +157,17 @@ class IntervalSingleBoundaryPoint(BoundaryDomain):
 
     def __call__(self, **data):
         evaluate_domain = self.domain(**data)
+        # the side has to be evaluated together with the interval, otherwise the
+        # returned boundary point still asks for variables that were just fixed.
+        # The values are stored like the parameter rows the function normally gets.
+        new_side = copy.deepcopy(self.side)
+        for vname, value in data.items():
+            if vname in new_side.args:
+                if not isinstance(value, torch.Tensor):
+                    value = torch.tensor(value, dtype=torch.float32).reshape(1, -1)
+                new_side.set_default(**{vname: value})
         return IntervalSingleBoundaryPoint(
-            evaluate_domain, side=self.side, normal_vec=self.normal_vec
+            evaluate_domain, side=new_side, normal_vec=self.normal_vec
         )
 
     def _contains(self, points, params=Points.empty()):
